@@ -110,11 +110,16 @@ def judge_c01(scn, run) -> Tuple[List[Viol], Dict[str, int]]:
     for cl, op in all_ops(run):
         lr = login_read(op)
         for i, u in enumerate(op.units):
-            if i > 0 and (lr is None or len(lr) < 12):
-                cnt(c, "grey:login-reply-without-session")
-                continue
-            cnt(c, "judged")
             kind = frames.classify(u)
+            if i > 0 and (lr is None or len(lr) < 12):
+                # frames that embed a session are outside the statement when the login reply carried none; a login
+                # frame embeds none (the first one is written before any reply at all) and is judged wherever it occurs
+                if not (kind in ("login1", "login2") and len(u) == len(op.units[0])
+                        and frames.classify(op.units[0]) == kind):
+                    cnt(c, "grey:login-reply-without-session")
+                    continue
+                cnt(c, "probe:login-frame-repeated")
+            cnt(c, "judged")
             if len(u) >= 256:
                 cnt(c, "probe:frame>=256")
             if kind == "set_name" and any(b > 127 for b in u[80:-4]):
@@ -728,6 +733,9 @@ def judge_c16(scn, run) -> Tuple[List[Viol], Dict[str, int]]:
                 key_swing = False if special else merged["swing"]
                 verdict, text_main = irsets.ref_lookup(irset, merged["on"], merged["mode"], merged["target"],
                                                        merged["fan"], key_swing, snap["on"] if snap else None)
+        if main and not a.get("target") and snap is not None and not 16 <= snap["target"] <= 30:
+            cnt(c, "grey:inherited-target-out-of-range")     # the statement covers current states with targets 16..30
+            continue
         if verdict == "grey":
             cnt(c, "grey:no-key-in-set")
             continue
@@ -756,7 +764,8 @@ def judge_c16(scn, run) -> Tuple[List[Viol], Dict[str, int]]:
             alts = [dict(dev, state=1 if merged["on"] else 0, mode=merged["mode"], target=merged["target"] & 0xFF,
                          fan=merged["fan"], swing=sw) for sw in (
                              # a separate-swing remote: the requested value, what the device reported, or excluded (0)
-                             sorted({1 if merged["swing"] else 0, 0}) if special else [1 if merged["swing"] else 0])]
+                             sorted({1 if merged["swing"] else 0, 0} | ({1 if snap["swing"] else 0} if snap else set()))
+                             if special else [1 if merged["swing"] else 0])]
             want.append(("status", "breeze_update", alts))
         elif main:
             if 87 + len(text_main) + 4 >= 256:
@@ -833,14 +842,13 @@ def judge_c10(scn, run) -> Tuple[List[Viol], Dict[str, int]]:
             continue
         if len(op.exchanges) == 2 and op.exchanges[0].mode == "ok" and op.exchanges[1].mode == "eof" \
                 and len(op.app_reads) == 2 and op.app_reads[1] == b"":
-            # "an empty reply yields no schedules" (raising RuntimeError instead is what C09 allows for any operation)
+            # "an empty reply yields no schedules": whatever is returned must hold none
             cnt(c, "judged-empty-reply")
             if op.outcome[0] == "ok":
                 if op.outcome[1].get("schedules") or op.outcome[1].get("n_schedules"):
                     v.append(("C10/schedules-from-empty-reply", "an empty reply to get_schedules yielded %r" % (op.outcome[1],)))
-            elif not is_runtime_error(op.outcome):
-                v.append(("C10/empty-reply-raised/%s" % op.outcome[1],
-                          "an empty reply to get_schedules raised %s(%s)" % (op.outcome[1], op.outcome[2])))
+            else:
+                cnt(c, "grey:empty-reply-raised")      # C10 does not say which error, if any, a hang-up may raise
             continue
         if any(ex.mode != "ok" for ex in op.exchanges) or len(op.exchanges) < 2 or len(op.app_reads) < 2 \
                 or op.app_reads[-1] != op.exchanges[-1].sent:
